@@ -515,6 +515,10 @@ def add_coordinates(job, g, profile, force_res=None, cut_at_instance=None, cut_a
         from oracles.final_state import write_pdb_text
         job["coord_text"] = write_pdb_text(lines, gro["box"][:3])
         job["coord_ext"] = "pdb"
+        if ("box" in job["opts"] or "density" in job["opts"]) and g.random() < profile.get("p_pdb_nobox", 0.4):
+            # no CRYST1 record: the structure brings no box, the requested one applies
+            job["coord_text"] = write_pdb_text(lines, None)
+            job["pdb_no_box"] = True
     if kind == "mol" and job.get("coord_ext") != "pdb" and g.random() < profile.get("p_pre_call", 0.0):
         # the complete earlier build, to be read from the same path by an earlier call in the same process
         full = [(at["resid"], at["resname"], at["atomname"]) + tuple(at["xyz"]) for at in gro["atoms"]]
@@ -524,6 +528,8 @@ def add_coordinates(job, g, profile, force_res=None, cut_at_instance=None, cut_a
     job["coord_box"] = gro["box"][:3]
     if job.get("coord_ext") == "pdb":
         job["coord_box"] = [float("%.3f" % (10 * b)) / 10 for b in gro["box"][:3]]     # CRYST1 keeps 3 decimals in A
+    if job.get("pdb_no_box"):
+        job["coord_box"] = None
     job["coord_mode"] = mode
     job["supplied_atoms"] = supplied_atoms
     job["supplied_centres"] = supplied_centres
@@ -535,6 +541,8 @@ def add_coordinates(job, g, profile, force_res=None, cut_at_instance=None, cut_a
         job["opts"]["ignore"] = ignore
     # box options: keep, drop, or contradict (input structure wins)
     r = g.random()
+    if job.get("pdb_no_box"):
+        r = 0.45 + 0.55 * r         # the options stay (or the box is enlarged): they are the only source of a box
     if r < 0.4:
         job["opts"].pop("box", None)
         job["opts"].pop("density", None)
@@ -580,6 +588,32 @@ def add_start(job, g):
                     idx += 1
             specs.append(f"{name}#{g.choice(cand)}-{mt['residues'][k]}#{rid}")
     job["opts"]["start"] = specs
+    return True
+
+
+def add_start_on_supplied(job, g):
+    """-start naming a residue whose centre is SUPPLIED (-mc) in a molecule of which other residues have to be built:
+    the walk starts from the given residue, nothing is seeded"""
+    from gen import bldgen
+    if job.get("coord_kind") != "meta" or not job.get("supplied_centres") or job["opts"].get("ignore"):
+        return False
+    inst = bldgen.instances(job["spec"])
+    built_inst = {e[0] for e in job.get("expected_built", [])}
+    cands = []
+    for key in job["supplied_centres"]:
+        parts = key.split(":")
+        i, resid = int(parts[0]), int(parts[1])
+        if i in built_inst and len(parts) > 2:
+            cands.append((i, resid, parts[2]))
+    if not cands:
+        return False
+    # preferably a molecule whose FIRST residue is among those to be built (the default start of the walk)
+    from gen import topgen
+    built = {tuple(e) for e in job.get("expected_built", [])}
+    pref = [c for c in cands if (c[0], topgen.file_resid(inst[c[0]], 0), inst[c[0]]["residues"][0]) in built]
+    i, resid, resname = g.choice(sorted(pref or cands))
+    job["opts"]["start"] = [f"{inst[i]['name']}#{i}-{resname}#{resid}"]
+    job["start_on_supplied"] = True
     return True
 
 
